@@ -7,6 +7,45 @@ import os
 _FX = os.environ.get("C19_FIXES", "impl_fixes")
 _ENV = {}
 
+# goroutine entry points without recover (every `go` statement outside tests), as read on 2026-10-01.  The list is
+# re-extracted from the tree on every run and written into the evidence; drift is reported there, never as a violation.
+_GO_STATEMENTS = [
+    "internal/cache/memory/cache.go: go c.c.Start()",
+    "internal/handler/envoyextauth/grpcv3/server_adapter.go: go func() {",
+    "internal/handler/fxlcm/lifecycle_manager.go: go func() {",
+    "internal/rules/provider/cloudblob/provider.go: go p.s.Start()",
+    "internal/rules/provider/filesystem/provider.go: go p.watchFiles()",
+    "internal/rules/provider/kubernetes/provider.go: go func() {",
+    "internal/rules/provider/kubernetes/provider.go: go func() {",
+    "internal/watcher/watcher_impl.go: go listener.OnChanged(w.l.Level(zerolog.InfoLevel))",
+    "internal/watcher/watcher_impl.go: go w.startWatching()",
+]
+
+
+def _goroutine_inventory():
+    import re
+    import vf
+    found = []
+    for top in ("internal", "cmd"):
+        for root, _, names in os.walk(os.path.join(vf.REPO, top)):
+            for n in sorted(names):
+                if not n.endswith(".go") or n.endswith("_test.go"):
+                    continue
+                path = os.path.join(root, n)
+                rel = os.path.relpath(path, vf.REPO)
+                if rel.startswith("internal/zzverif"):
+                    continue
+                with open(path, errors="replace") as f:
+                    for line in f:
+                        t = line.strip()
+                        if re.match(r"go\s+(func\b|[A-Za-z_][\w.]*\()", t):
+                            found.append("%s: %s" % (rel, t))
+    found.sort()
+    rec = sorted(_GO_STATEMENTS)
+    return {"goroutine_entry_points": found,
+            "goroutine_entry_points_drift": {"new": [x for x in found if x not in rec], "gone": [x for x in rec if x not in found]}}
+
+
 _GEN = {"internal/zzverif/c19gen/gen.go": "c19/gen/gen.go", "internal/zzverif/c19gen/reload.go": "c19/gen/reload.go"}
 
 
@@ -25,7 +64,7 @@ P = {
     "coq_targets": ["Properties/C19.vo", "Run/Eval_C19.vo"],
     "theorems_module": "Properties.C19",
     "theorems": ["C19_reload_total", "C19_reload_total_any_fixed", "C19_reload_total_guarded", "C19_reload_exit_iff_guards",
-                 "C19_find_chain_terminates", "C19_truststore_total", "C19_truststore_panic_iff",
+                 "C19_find_chain_terminates", "C19_pinned_exhaustion_is_divergence", "C19_empty_store_iff", "C19_truststore_total", "C19_truststore_panic_iff",
                  "C19_ruleset_total", "C19_ruleset_total_typed", "C19_ruleset_total_guarded", "C19_F3_only_ill_typed",
                  "C19_fs_total", "C19_fs_total_guarded", "C19_fs_exit_iff_guard",
                  "C19_request_panic_is_non_success", "C19_composite_extract_panic_iff",
@@ -63,7 +102,8 @@ P = {
         "eval_module": "Run.Eval_C19", "check_term": "check_fs " + _FX,
         "n_quick": 200, "n_thorough": 6000, "findings": _KF, "env": _ENV,
     }],
-    "rule": "seven streams against the real code. keystore/truststore: compositions of 24 fixture PEM blocks (RSA 1024-4096, EC P-224..P-521, "
+    "extra_coverage": _goroutine_inventory,
+    "rule": "six drivers / eight streams against the real code. keystore/truststore: compositions of 24 fixture PEM blocks (RSA 1024-4096, EC P-224..P-521, "
             "ed25519, encrypted PKCS#8, public key, certificate chains, expired / wrong-usage / cross-issued certificates, X-Key-ID headers) "
             "truncated at EVERY offset (valid stores) and mutated byte-wise (flip, deleted line, renamed block label, trailing bytes) through "
             "NewKeyStoreFromPEMBytes + Entry.JWK and NewTrustStoreFromPEMBytes; signer/tls/httpsig: the same contents written to the watched "
@@ -91,17 +131,20 @@ P = {
                 "httpsig.NewSigner is assumed to succeed for a supported key (observed on every run)",
                 "request goroutines: only the recovery middleware and the composite extractor are modelled; malformed tokens / JWKS / "
                 "introspection responses are not swept by this check (C01/C10 streams exercise those paths)"],
-    "level_text": "Proof (kernel-checked, no axioms) that the modelled loaders - key store creation incl. chain building, the reload of "
-                  "jwt signer / TLS key store / http message signatures, trust store, rule factory over the decoded YAML value tree + "
-                  "rule-set processor, file-system provider event handler, recovery middleware - reach a panic (= process exit on their "
-                  "goroutine) on EXACTLY the inputs of eight recorded findings (iff-theorems per site) and otherwise reject the input and "
-                  "keep the previous state, for all inputs of any size; with the candidate repairs switched on the guards are empty. "
-                  "The models are tied to the Go code by ~5000 (quick) / ~60000 (thorough) systematic + generated cases per run "
-                  "through the real entry points, comparing outcome (reloaded / kept / exit site), log level and state.",
-    "level_note": "PARTIAL by design: proof of totality of the decision logic after byte parsing + systematic fault enumeration; parsers and "
-                  "crypto are data/oracles (see trusted). Eight open findings are guarded (C19-F1..F8; F5-F8 were found while building "
-                  "this check), each with an exact guard, a _refuted witness and a corpus case observed as KNOWN-FINDING on every run "
-                  "(F6, a fatal stack overflow, in a child process). Candidate repairs: fixes/C19-F*.diff; the model is parametric in them.",
+    "level_text": "Proof (kernel-checked, no axioms) that the modelled loaders of the tree as it is now - key store creation incl. chain "
+                  "building, the hot reload of jwt signer / TLS key store / http message signatures, trust store, rule factory over "
+                  "the decoded YAML value tree + rule-set processor, file-system provider event handler, recovery middleware - never "
+                  "reach a panic (= process exit on their goroutine) and keep the previous state whenever they reject the input, for "
+                  "ALL inputs of any size (unguarded totality theorems; for the rule factory under the hypothesis that the "
+                  "collaborators taken as data do not panic themselves); for any subset of the eight repairs the panics are "
+                  "characterised exactly (iff-theorems per site). The models are tied to the Go code by ~4300 (quick) / ~60000 "
+                  "(thorough) systematic + generated cases per run through the real entry points, comparing outcome (reloaded / kept / "
+                  "exit site), log level and state.",
+    "level_note": "PARTIAL by design: proof of totality of the decision logic after byte parsing + systematic fault enumeration (truncation "
+                  "at every offset, type confusion of every node); parsers and crypto are data/oracles (see trusted). Eight findings "
+                  "(C19-F1..F8; F5-F8 found while building this check, F8 by the sweep itself) were repaired by fix: commits; the pinned "
+                  "behaviour is documented by the _pinned_refuted theorems, and reverting any of the commits is reported as a VIOLATION "
+                  "with the crashing input (F6, a fatal stack overflow, through a child process).",
     "assumptions": ["drivers read private fields of jwtSigner / tlsx.keyStore / HTTPMessageSignatures / repository / Provider (in-package): "
                     "renaming them breaks the driver, not the property",
                     "fixtures (corpus/C19/fixtures.pem) contain certificates valid until 2120; an expired-on-purpose one is dated 2021"],
